@@ -162,7 +162,7 @@ def check_case(chk, probe, model, case, moves, ns, rng, dist):
         if case.gen is None or rng.random() < 0.1:
             gw = [0, 256, 257, rng.choice([1, 16, 300, 70000])]
             ri = probe.call(dict(req, ns=gw))
-            rm = model.call({"cmd": "listing", "files": jfiles, "sm": sm, "segs": segs, "ns": gw, "ems": []})
+            rm = model.call({"cmd": "widths", "ns": gw})
             for w in gw:
                 li = ri.get("listings", {}).get(str(w))
                 acc_i = isinstance(li, dict) and "errors" not in li and "panic" not in li
